@@ -245,6 +245,40 @@ int main(int argc, char **argv)
 						run_case(im, lc[li], kc[ki], rows, -1, -1, 1, "c:rows");
 					v_nontrivial(v_mix(ii + 2000, rows * 16 + ki));
 				}
+		/* (f) sparse sources: source 1 all zero except one window of 1 / 8 / 24 / 32 / 64 non-zero bytes at EVERY offset, the other two
+		 * sources all zero or dense: no "nothing to do" shortcut may fire on anything less than truly all-zero data */
+		{
+			static uint8_t SP[NMAX], Z[NMAX];
+			static const int sl[] = { 64, 96, 128, 192, 256, 300 }, sw[] = { 1, 8, 24, 32, 64 };
+			for (int li = 0; li < 6; li++) {
+				if (!v_mine(unit++))
+					continue;
+				if (v_deadline_hit() || nfail > 60)
+					goto out;
+				int len = sl[li];
+				if (len < im->minlen || len > N)
+					continue;
+				uint8_t *keep[3] = { M[0], M[1], M[2] };
+				for (int others = 0; others < 2; others++) {
+					M[1] = SP;
+					if (others == 0)
+						M[0] = M[2] = Z;
+					for (int wi = 0; wi < 5; wi++)
+						for (int q = 0; q + sw[wi] <= len; q++) {
+							memset(SP, 0, len);
+							for (int j = 0; j < sw[wi]; j++)
+								SP[q + j] = (uint8_t)(1 + (q * 7 + j * 13) % 255);
+							ref_k = -1;
+							make_ref(3, w, 1, len);
+							run_case(im, len, 3, w, -1, -1, 1, others ? "f:sparse-source-1,dense-0-and-2" : "f:sparse-source-1,zero-0-and-2");
+							v_count("sparse_source_cases", 1);
+						}
+					M[0] = keep[0]; M[1] = keep[1]; M[2] = keep[2];
+				}
+				ref_k = -1;
+				v_nontrivial(v_mix(ii + 5000, len));
+			}
+		}
 		/* (e) long blocks */
 		{
 			static const int bigl[] = { 65536 + 17, (1 << 20) + 33, 1 << 20, (1 << 20) + 64, (1 << 24) + 65 };
